@@ -2,7 +2,8 @@
 """Evaluate one seeded change: confirm its demonstration in its scratch worktree, store it under
 /verif/seeded/<name>/, apply it to /repo, run the property's check (quick, then thorough if quick is
 silent), undo.  usage: seed_eval.py <worktree> <property> <name> [extra-property ...]"""
-import json, os, shutil, subprocess, sys, time
+import json, os, tempfile, shutil, subprocess, sys, time
+os.environ.setdefault('VERIF_EVIDENCE_DIR', __import__('tempfile').mkdtemp(prefix='pcfgverif-ev-', dir='/dev/shm' if os.path.isdir('/dev/shm') else None))
 wt, prop, name = sys.argv[1:4]
 extra = sys.argv[4:]
 V = '/verif'
@@ -53,6 +54,7 @@ try:
     meta['caught_by'] = [k for k, v in results.items() if v['exit'] == 1]
 finally:
     sh('git -C /repo checkout -- .')
+    sh('/venv/bin/python /verif/harness/translate.py /repo /verif/lean/PcfgVerif/PcfgVerif/Generated')
     sh('git -C /repo clean -fdq -- lib_guesser lib_trainer lib_scorer lib_princeling')
 meta['what_it_needs'] = ''
 json.dump(meta, open(os.path.join(d, 'meta.json'), 'w'), indent=1)
